@@ -4,7 +4,7 @@ namespace C04
 open FrameRead RespSpec
 
 theorem parseBody_ok (v : Nat) (b : Body) (r : FrameRead.Bytes) (hv : 1 ≤ v)
-    (hw : wfBody v b = true) (hc : noCollClassBody b = true) :
+    (hw : wfBody v b = true) :
     parseBody v (UInt8.ofNat b.opcode) (eMsg v b ++ r) = .ok (viewBody v b, restOfBody b ++ r) := by
   cases b with
   | error msg e =>
@@ -26,7 +26,7 @@ theorem parseBody_ok (v : Nat) (b : Body) (r : FrameRead.Bytes) (hv : 1 ≤ v)
       bind_ok (readStringMultiMap_e o r h.1.1 h.1.2 h.2), pure_apply, viewBody, restOfBody]
   | result res =>
     have h : wfResult v res = true := by simpa [wfBody] using hw
-    have := parseResultFrame_ok v res r hv h hc
+    have := parseResultFrame_ok v res r hv h
     simp [parseBody, Body.opcode, opError, opReady, opResult, eMsg, this]
   | event e =>
     have h : wfEvent v e = true := by simpa [wfBody] using hw
@@ -89,7 +89,7 @@ theorem payload_ok (payload : Option (List (FrameRead.Bytes × Option FrameRead.
 /-- parseFrame only looks at the version byte, the flags and the opcode of the header -/
 theorem parseResp_hdr (v : Nat) (r : LResp) (tail : FrameRead.Bytes) (h : Header) (c : Bool)
     (hv : h.version = UInt8.ofNat (v + 0x80)) (hf : h.flags = UInt8.ofNat (r.flags + (if c then 0x01 else 0)))
-    (ho : h.op = UInt8.ofNat r.body.opcode) (hw : wf v r = true) (hc : noCollClassResp r = true) :
+    (ho : h.op = UInt8.ofNat r.body.opcode) (hw : wf v r = true) :
     parseResp v h (encodeBody v r ++ tail) = .ok (view v r, restOf r ++ tail) := by
   obtain ⟨stream, tracing, warnings, payload, beta, body⟩ := r
   simp only [wf, Bool.and_eq_true, decide_eq_true_eq] at hw
@@ -97,7 +97,7 @@ theorem parseResp_hdr (v : Nat) (r : LResp) (tail : FrameRead.Bytes) (h : Header
   have hfl := flags_decode tracing.isSome payload.isSome warnings.isSome beta c
   have hflags : (LResp.flags ⟨stream, tracing, warnings, payload, beta, body⟩) + (if c then 0x01 else 0) =
       flagBitsOf tracing.isSome payload.isSome warnings.isSome beta c := rfl
-  have hbody := parseBody_ok v body tail hv1 hb hc
+  have hbody := parseBody_ok v body tail hv1 hb
   have hver : (h.version &&& 0x80 == 0) = false := by rw [hv]; exact version_is_response v hv1 hv5
   unfold parseResp parseFrameP
   rw [if_neg (by rw [hver]; simp)]
@@ -106,9 +106,8 @@ theorem parseResp_hdr (v : Nat) (r : LResp) (tail : FrameRead.Bytes) (h : Header
     bind_ok hbody]
   rfl
 
-theorem parseResp_ok (v : Nat) (r : LResp) (tail : FrameRead.Bytes) (hw : wf v r = true)
-    (hc : noCollClassResp r = true) :
+theorem parseResp_ok (v : Nat) (r : LResp) (tail : FrameRead.Bytes) (hw : wf v r = true) :
     parseResp v (hdr v r) (encodeBody v r ++ tail) = .ok (view v r, restOf r ++ tail) :=
-  parseResp_hdr v r tail (hdr v r) false rfl (by simp [hdr]) rfl hw hc
+  parseResp_hdr v r tail (hdr v r) false rfl (by simp [hdr]) rfl hw
 
 end C04
